@@ -79,31 +79,44 @@ func (c *memConn) SetWriteDeadline(time.Time) error { return nil }
 
 // ---------------------------------------------------------------------------------------------
 
+type pendingCall struct {
+	done chan callRes
+	buf  []byte   // Read buffer
+	v    [][]byte // Write vector
+}
+
+type callRes struct {
+	n   int
+	err error
+}
+
 type side struct {
-	name    string
-	s       *kcp.UDPSession
-	conn    *memConn
-	addr    *net.UDPAddr
-	written []byte
-	got     []byte
+	pendR, pendW *pendingCall // calls left blocked on purpose (wake-up oracle)
+	name         string
+	s            *kcp.UDPSession
+	conn         *memConn
+	addr         *net.UDPAddr
+	written      []byte
+	got          []byte
 }
 
 type world struct {
-	o       *hx.Out
-	g       *hx.Rng
-	a, b    *side
-	now     uint32
-	ops     []string
-	netAB   [][]byte
-	netBA   [][]byte
-	modeled bool // no cipher, no FEC: op lines are emitted and compared with the Lean model
-	cipher  string
-	ds, ps  int
-	hist    int
-	aborted bool
-	seen    map[string]bool // datagram hashes (C09: no identical datagrams under a cipher)
-	mtu     [2]int
-	tier    string
+	o            *hx.Out
+	g            *hx.Rng
+	a, b         *side
+	now          uint32
+	ops          []string
+	netAB        [][]byte
+	netBA        [][]byte
+	modeled      bool // no cipher, no FEC: op lines are emitted and compared with the Lean model
+	cipher       string
+	ds, ps       int
+	hist         int
+	aborted      bool
+	leaveBlocked bool            // this history leaves blocked Read/Write calls pending (oracle only, not modelled)
+	seen         map[string]bool // datagram hashes (C09: no identical datagrams under a cipher)
+	mtu          [2]int
+	tier         string
 }
 
 func (w *world) viol(kind, detail string) {
@@ -253,10 +266,10 @@ func (w *world) write(x *side, v [][]byte) {
 	kcp.VerifSetClock(w.now)
 	d0 := w.state(x)
 	mustBlock := len(d0.SndQueue)+len(d0.SndBuf) >= int(d0.SndWnd)
-	type res struct {
-		n   int
-		err error
+	if x.pendW != nil { // one pending writer per side is enough
+		return
 	}
+	type res = callRes
 	done := make(chan res, 1)
 	// a far deadline is in force from the start, so that a blocked call can be cancelled by moving it
 	// into the past (a deadline set while blocked without one in force is C13's subject, not ours)
@@ -286,6 +299,12 @@ func (w *world) write(x *side, v [][]byte) {
 		if !mustBlock {
 			w.viol("write-blocked-under-window", fmt.Sprintf("%s Write blocked with %d segments pending, send window %d", x.name, len(d0.SndQueue)+len(d0.SndBuf), d0.SndWnd))
 		}
+		if w.leaveBlocked && w.g.Chance(60) {
+			x.pendW = &pendingCall{done: done, v: v}
+			w.emit(x, op, "blocked "+w.tail(x))
+			w.o.Count("write:left-blocked")
+			return
+		}
 		x.s.SetWriteDeadline(time.Now().Add(-time.Second))
 		nudge()
 		select {
@@ -306,10 +325,10 @@ func (w *world) write(x *side, v [][]byte) {
 
 func (w *world) read(x *side, blen int) {
 	op := fmt.Sprintf("sread %d", blen)
-	type res struct {
-		n   int
-		err error
+	if x.pendR != nil {
+		return
 	}
+	type res = callRes
 	buf := make([]byte, blen)
 	done := make(chan res, 1)
 	x.s.SetReadDeadline(time.Now().Add(time.Hour))
@@ -334,6 +353,12 @@ func (w *world) read(x *side, blen int) {
 			w.viol("sess-stream-not-prefix", fmt.Sprintf("%s has read %d bytes that are not a prefix of the %d bytes %s wrote", x.name, len(x.got), len(p.written), p.name))
 		}
 	default:
+		if w.leaveBlocked && w.g.Chance(60) {
+			x.pendR = &pendingCall{done: done, buf: buf}
+			w.emit(x, op, "blocked "+w.tail(x))
+			w.o.Count("read:left-blocked")
+			return
+		}
 		x.s.SetReadDeadline(time.Now().Add(-time.Second))
 		nudge()
 		select {
@@ -371,6 +396,7 @@ func (w *world) input(x *side, p []byte) {
 	}
 	outs := w.settle(x)
 	w.emit(x, op, fmt.Sprintf("o=%s %s", showOuts(outs), w.tail(x)))
+	w.checkPending(x, op)
 }
 
 func (w *world) pump(x *side) uint32 {
@@ -379,7 +405,105 @@ func (w *world) pump(x *side) uint32 {
 	iv := kcp.VerifE2EPump(x.s)
 	outs := w.settle(x)
 	w.emit(x, op, fmt.Sprintf("r=%d o=%s %s", iv, showOuts(outs), w.tail(x)))
+	w.checkPending(x, op)
 	return iv
+}
+
+// checkPending: wake-up oracle (C02/C13).  After the library has settled, a Read left blocked must
+// have returned if data is readable, a Write left blocked must have returned if the window has room.
+func (w *world) checkPending(x *side, op string) {
+	if p := x.pendR; p != nil {
+		select {
+		case r := <-p.done:
+			x.pendR = nil
+			if r.err != nil {
+				w.viol("read-result", fmt.Sprintf("%s pending Read returned err=%v", x.name, r.err))
+			} else {
+				x.got = append(x.got, p.buf[:r.n]...)
+				if !bytes.HasPrefix(w.peer(x).written, x.got) {
+					w.viol("sess-stream-not-prefix", fmt.Sprintf("%s has read %d bytes that are not a prefix of what %s wrote", x.name, len(x.got), w.peer(x).name))
+				}
+			}
+			w.o.Count("pending-read:woken")
+		default:
+			var ps int
+			kcp.VerifE2ELocked(x.s, func() { ps = kcp.VerifE2ECore(x.s).PeekSize() })
+			if ps > 0 || len(kcp.VerifE2EBufptr(x.s)) > 0 {
+				w.viol("read-not-woken", fmt.Sprintf("%s: a Read blocked since earlier is still blocked after %s although %d bytes are readable", x.name, trunc(op), ps))
+				w.cancelRead(x)
+			}
+		}
+	}
+	if p := x.pendW; p != nil {
+		select {
+		case r := <-p.done:
+			x.pendW = nil
+			if r.err != nil {
+				w.viol("write-result", fmt.Sprintf("%s pending Write returned err=%v", x.name, r.err))
+			} else {
+				for i := range p.v {
+					x.written = append(x.written, p.v[i]...)
+				}
+			}
+			w.settle(x)
+			w.o.Count("pending-write:woken")
+		default:
+			d := w.state(x)
+			if len(d.SndQueue)+len(d.SndBuf) < int(d.SndWnd) && strings.HasPrefix(op, "supdate") {
+				// kcpInput and update both notify writers when the window has room; after an update this
+				// must have happened (between updates a second writer may legitimately wait)
+				w.viol("write-not-woken", fmt.Sprintf("%s: a Write blocked since earlier is still blocked after %s although only %d of %d segments are pending", x.name, trunc(op), len(d.SndQueue)+len(d.SndBuf), d.SndWnd))
+				w.cancelWrite(x)
+			}
+		}
+	}
+}
+
+func trunc(s string) string {
+	if len(s) > 60 {
+		return s[:60] + "…"
+	}
+	return s
+}
+
+func (w *world) cancelRead(x *side) {
+	if x.pendR == nil {
+		return
+	}
+	x.s.SetReadDeadline(time.Now().Add(-time.Second))
+	nudge()
+	select {
+	case <-x.pendR.done:
+	default:
+		w.viol("read-stuck", x.name+" blocked Read did not return on a past deadline")
+		w.aborted = true
+	}
+	x.pendR = nil
+	x.s.SetReadDeadline(time.Time{})
+	synctest.Wait()
+}
+
+func (w *world) cancelWrite(x *side) {
+	if x.pendW == nil {
+		return
+	}
+	x.s.SetWriteDeadline(time.Now().Add(-time.Second))
+	nudge()
+	select {
+	case r := <-x.pendW.done:
+		if r.err == nil { // it went through in the meantime
+			for i := range x.pendW.v {
+				x.written = append(x.written, x.pendW.v[i]...)
+			}
+		}
+	default:
+		w.viol("write-stuck", x.name+" blocked Write did not return on a past deadline")
+		w.aborted = true
+	}
+	x.pendW = nil
+	x.s.SetWriteDeadline(time.Time{})
+	synctest.Wait()
+	w.settle(x)
 }
 
 func (w *world) setting(x *side, op string, f func() string) {
@@ -406,6 +530,11 @@ func (w *world) history(cipher string, fec [2]int) {
 	w.aborted = false
 	w.cipher, w.ds, w.ps = cipher, fec[0], fec[1]
 	w.modeled = cipher == "nil" && fec[0] == 0
+	w.leaveBlocked = false
+	if g.Chance(40) { // wake-up oracle histories: blocked calls stay pending; oracle only
+		w.leaveBlocked = true
+		w.modeled = false
+	}
 	w.seen = map[string]bool{}
 	conv := g.U32()
 	aAddr := &net.UDPAddr{IP: net.IPv4(10, 0, 0, 1), Port: 1000}
@@ -533,6 +662,12 @@ func (w *world) history(cipher string, fec [2]int) {
 			}
 		}
 	}
+	for _, x := range []*side{w.a, w.b} {
+		if !w.aborted {
+			w.cancelRead(x)
+			w.cancelWrite(x)
+		}
+	}
 	if !w.aborted {
 		w.drain()
 	}
@@ -596,6 +731,7 @@ func (w *world) drain() {
 }
 
 func (w *world) readAll(x *side) {
+	w.cancelRead(x)
 	for i := 0; i < 100000 && !w.aborted; i++ {
 		var ps int
 		kcp.VerifE2ELocked(x.s, func() { ps = kcp.VerifE2ECore(x.s).PeekSize() })
